@@ -4,6 +4,7 @@ Require Import MV.Gen.Scalar_gen MV.Model.Filter MV.Model.Morph MV.Model.Convolv
 Require Import MV.Proof.Border MV.Proof.ConvProof MV.Proof.SafetyProof MV.Proof.MorphProof.
 Require Import MV.Model.MorphFast MV.Gen.FastPath_gen MV.Proof.MorphFastProof MV.Proof.FastPathTie.
 Require Import MV.Model.Distance MV.Proof.DistanceProof MV.Proof.EnvelopeProof MV.Proof.DistanceExact.
+Require Import MV.Gen.Offsets_gen MV.Model.OffsetsTable MV.Proof.OffsetsAxis MV.Proof.OffsetsProof.
 
 (* every index produced by the border function is inside [0,len), or is the explicit flag which the
    kernels test for (constant / ignore mode, coordinate really outside) *)
@@ -68,3 +69,22 @@ Proof. intros is_er Ny Nx pos t s H1 H2. rewrite gen_updates_are_model_updates. 
 Theorem C10_distance_stack_in_bounds : forall f, (1 <= length f)%nat ->
   Z.of_nat (length (build_hull f)) <= Zlen f /\ forall e, In e (build_hull f) -> 0 <= fst e < Zlen f.
 Proof. exact envelope_stack_in_bounds. Qed.
+
+(* the offsets table (per-axis arithmetic re-translated from _filters.cpp on this run): every stored entry is the flag, which
+   retrieve() tests for before dereferencing, or leads from the pixel's element to an element INSIDE the array -- any rank,
+   shapes, footprint, mode and strides; and the table pointer itself stays on a row of the table (C01_offsets_table_row...) *)
+Theorem C10_offsets_table_entries_point_inside : forall mode axes pos coords,
+  valid_mode mode -> axes_ok axes -> digits_in pos (adims axes) -> length coords = length axes ->
+  entry mode axes pos coords 0 = border_flag_value \/
+  exists q, digits_in q (adims axes) /\ addr axes pos + entry mode axes pos coords 0 = addr axes q.
+Proof. exact entry_reads_inside. Qed.
+
+(* the table pointer after n steps is  rowlen * (index of the pixel's region)  with that index below the number of rows *)
+Theorem C10_offsets_table_pointer_in_table : forall axes rl n, axes_ok axes -> Z.of_nat n < prodZ (adims axes) ->
+  fst (walk axes rl n) = rl * rvalue axes (le_digits (adims axes) (Z.of_nat n)) /\
+  0 <= rvalue axes (le_digits (adims axes) (Z.of_nat n)) < offsets_size axes.
+Proof.
+  intros axes rl n Hax Hn. rewrite walk_spec by auto. split; [reflexivity|].
+  apply le_value_range; [apply nregs_ok; auto|]. apply map2_ridx_in; auto.
+  apply le_digits_in; [apply adims_ok; auto | lia].
+Qed.
